@@ -689,6 +689,30 @@ pub fn stripe_fresh<A: Alphabet>(cfg: SCfg, syms: &[A::Symbol], wraps: &[usize])
         (snapshot(&s), idx, counts)
     }
     let g = Pipeline::<A, Generic>::generic();
+    // the conversions of the encoded sequence (`to_striped`, by-value `From` / `into`; 32 columns, dispatching) are
+    // striping too: they must give the matrix of `Stripe::stripe`
+    if cfg == SCfg::GenU32 || matches!(cfg, SCfg::DispGen | SCfg::DispSse | SCfg::DispAvx) {
+        let run = || {
+            let fresh = snapshot(&Stripe::<A, U32>::stripe(&g, syms));
+            let enc = lightmotif::seq::EncodedSequence::<A>::new(syms.to_vec());
+            let a: StripedSequence<A, U32> = enc.to_striped();
+            let b: StripedSequence<A, U32> = StripedSequence::from(enc);
+            for (what, t) in [("EncodedSequence::to_striped", &a), ("StripedSequence::from(EncodedSequence)", &b)] {
+                let o = snapshot(t);
+                assert!(
+                    o.rows == fresh.rows && o.len == fresh.len && o.wrap == fresh.wrap && o.cells == fresh.cells,
+                    "{} differs from Stripe::stripe: {} rows / length {} / wrap {} against {} rows / length {} / wrap {}{}",
+                    what, o.rows, o.len, o.wrap, fresh.rows, fresh.len, fresh.wrap, if o.rows == fresh.rows && o.cells != fresh.cells { " (cells differ)" } else { "" }
+                );
+            }
+        };
+        match cfg {
+            SCfg::DispGen => with_arm(Forced::Generic, run),
+            SCfg::DispSse => with_arm(Forced::Sse2, run),
+            SCfg::DispAvx => with_arm(Forced::Avx2, run),
+            _ => run(),
+        }
+    }
     match cfg {
         SCfg::GenU1 => go::<A, U1, _>(&g, syms, wraps),
         SCfg::GenU2 => go::<A, U2, _>(&g, syms, wraps),
